@@ -128,9 +128,10 @@ def run(ctx):
     decision_table(res, ca, cb, dom, smp, 'recorder decision', 'forced', forced_rec, 'sampling_rate')
     # ---- S3 sibling
     s3 = repo.find_class('S3TapeCassette')
-    if s3 is None or s3.lookup('_should_sample') is None:
+    f3s = [m for m in s3.methods.values() if any(isinstance(n, ast.Call) and _self_attr(n.func) == 'sampling_calculator' for n in ast.walk(m.node))] if s3 else []
+    if len(f3s) != 1:
         raise AnalysisError('anchor-lost role=S3 size-based sampling decision')
-    f3 = s3.lookup('_should_sample')
+    f3 = f3s[0]
     dom3 = small.analyse(repo, excm, f3, policy=pol, domain=DrawDomain)
 
     def forced_s3(d, s):
